@@ -55,6 +55,9 @@ CyclicGraphs3F(u) == {gr \in GraphsN(3) : /\ WellFormedG(gr) /\ gr.cont[1]
 Bound == 40
 SizeOK == Len(out) + Len(work) <= Bound
 \* bounded time: every step either terminates the run or lengthens `out`, and `out` is bounded
-T8d_Progress == [][status' = "run" => Len(out') = Len(out) + 1]_dvars
+T8d_Progress == [][(status = "run" /\ status' = "run") => Len(out') = Len(out) + 1]_dvars
+                /\ [][(status = "probe" /\ status' # "run") => probes' = probes + 1]_dvars
+\* the time bound in terms of the limit (LinK = 4 for graphs of up to 3 ids with at most 2 kids each: found by TLC, not assumed)
+T8d_Linear == T8d_LinearK(4)
 T8d_Bounded  == Len(out) <= 2 * Bound
 =============================================================================
